@@ -12,8 +12,35 @@ class Facts:
         self.impls = d["impls"]
         self.bodies = [Body(self, b) for b in d["bodies"]]
         self.by_def = {}
+        self.by_cdef = {}
         for b in self.bodies:
             self.by_def.setdefault(b.def_, b)
+            self.by_cdef.setdefault(b.j.get("cdef"), b)
+        self._closure_ret = {}
+
+    def closure_return_term(self, cpath):
+        """The single returned value term of closure body `cpath` (in the closure's own terms:
+        ('param', 1) = captures, ('param', 2) = first argument), or None."""
+        if cpath in self._closure_ret:
+            return self._closure_ret[cpath]
+        self._closure_ret[cpath] = None
+        b = self.by_cdef.get(cpath)
+        if b is not None and b.n <= 40:
+            from .terms import Terms
+            T = Terms(b)
+            rets = set()
+            for blk in sorted(b.reachable):
+                if b.is_cleanup(blk):
+                    continue
+                for s in b.stmts(blk):
+                    if s["k"] == "assign" and s["lhs"]["l"] == 0 and not s["lhs"]["p"]:
+                        rets.add(T.of_rvalue(s["rv"], 0))
+                t = b.term(blk)
+                if t["k"] == "call" and t["dest"]["l"] == 0 and not t["dest"]["p"]:
+                    rets.add(T.of_call(blk, t, 0))
+            if len(rets) == 1:
+                self._closure_ret[cpath] = next(iter(rets))
+        return self._closure_ret[cpath]
 
     def ty(self, ix):
         return self.types[ix] if ix is not None else None
